@@ -29,6 +29,9 @@ type Layout struct {
 	CommentEvery int  `json:"comment_every"` // 0 = never; k = a ';' comment line before every k-th line
 	CRLF         bool `json:"crlf"`
 	FinalNewline bool `json:"final_newline"`
+	// CommentLen: 0 = the short standard comment; otherwise the first three comment lines have this many bytes (a line of any kind
+	// may be of any length: what a reader does with a long line must not depend on whether it holds sequence)
+	CommentLen int `json:"comment_len,omitempty"`
 }
 
 type Case struct {
@@ -59,14 +62,18 @@ func layout(recs []fasta.Fasta, l Layout) []byte {
 		eol = "\r\n"
 	}
 	var b bytes.Buffer
-	line := 0
+	line, longComments := 0, 0
 	emit := func(s string) {
 		line++
 		if l.BlankEvery > 0 && line%l.BlankEvery == 0 {
 			b.WriteString(eol)
 		}
 		if l.CommentEvery > 0 && line%l.CommentEvery == 0 {
-			b.WriteString("; comment >not a header" + eol)
+			if longComments++; longComments > 3 {
+				b.WriteString(commentLine(0) + eol) // the first three comment lines have the drawn length, the rest the standard one
+			} else {
+				b.WriteString(commentLine(l.CommentLen) + eol)
+			}
 		}
 		b.WriteString(s)
 		b.WriteString(eol)
@@ -91,6 +98,14 @@ func layout(recs []fasta.Fasta, l Layout) []byte {
 		out = bytes.TrimSuffix(out, []byte(eol))
 	}
 	return out
+}
+
+func commentLine(n int) string {
+	const text = "; comment >not a header "
+	if n <= 0 {
+		return strings.TrimRight(text, " ")
+	}
+	return (strings.Repeat(text+"ACGT\tacgt ", n/len(text)+1))[:n]
 }
 
 func same(what string, got, want []fasta.Fasta) error {
@@ -387,6 +402,9 @@ func labels(c Case) []string {
 	}
 	if c.Layout.CommentEvery > 0 {
 		l = append(l, "comment lines")
+		if c.Layout.CommentLen > 4096 {
+			l = append(l, "comment lines beyond 4 KiB")
+		}
 	}
 	if !c.Layout.FinalNewline {
 		l = append(l, "no final newline")
@@ -427,7 +445,11 @@ func sample(c Case) any {
 		if len(s) > 30 {
 			s = fmt.Sprintf("%s…(%d)", s[:30], len(s))
 		}
-		rs = append(rs, fmt.Sprintf(">%s | %s", r.Name, s))
+		name := r.Name
+		if len(name) > 80 {
+			name = fmt.Sprintf("%s…(%d bytes)", name[:60], len(name))
+		}
+		rs = append(rs, fmt.Sprintf(">%s | %s", name, s))
 	}
 	m := map[string]any{"kind": c.Kind, "records": rs, "layout": c.Layout}
 	if c.Kind == "stream" {
@@ -456,6 +478,9 @@ func drawRecords(t *rapid.T, maxRecords, maxLen int) []Rec {
 	recs := make([]Rec, n)
 	for i := range recs {
 		name := nameGen.Draw(t, "name")
+		if n <= 3 && rapid.IntRange(0, 39).Draw(t, "long_name") == 0 { // a header line beyond any fixed line buffer
+			name = strings.Repeat(name+" sp|P12345|LONG_DESCRIPTION ", 70000/(len(name)+28)+1)
+		}
 		name = strings.TrimRight(name, "\r") // a trailing CR cannot survive CRLF handling by design
 		alpha := rapid.SampledFrom([]string{"ACGT", "ACGTNacgtn", "ACDEFGHIKLMNPQRSTVWY*", "ACGT-"}).Draw(t, "alphabet")
 		var seq vk.SeqSpec
@@ -489,6 +514,10 @@ func drawLayout(t *rapid.T) Layout {
 	}
 	if rapid.Bool().Draw(t, "comment_lines") {
 		l.CommentEvery = rapid.IntRange(1, 7).Draw(t, "comment_every")
+		if rapid.IntRange(0, 5).Draw(t, "long_comments") == 0 {
+			l.CommentEvery = max(l.CommentEvery, 3)
+			l.CommentLen = rapid.SampledFrom([]int{1, 2, 4095, 4096, 4097, 5000, 65535, 65536, 65537, 70000, 140000}).Draw(t, "comment_len")
+		}
 	}
 	return l
 }
